@@ -546,14 +546,48 @@ void run_case(Choices& c, Report& r)
   }
 
   // ---- drain and judge ----
-  bool drained = !r.failed && !r.inconclusive && drain(W);
+  // A quarter of the cases end the way a program ends: the backend's own exit path (Backend::stop() / the manual worker's
+  // destructor -> BackendWorker::_exit()) has to deliver whatever is still queued or cached, including statements that
+  // are younger than the grace period at that moment. Only taken when no call is in flight (a blocked call has not
+  // completed, so nothing is claimed for it, and nobody could ever grant its retries again).
+  bool any_busy = false;
+  for (size_t k = 0; k < W.workers.size(); ++k) if (W.workers[k].alive && worker_busy(W, static_cast<int>(k))) any_busy = true;
+  bool stop_end = !r.failed && !r.inconclusive && c.pick(4) == 3 && !any_busy && !is_prop("C09");
+  bool drained = false;
+  if (stop_end)
+  {
+    long unwritten = 0;
+    uint64_t youngest = 0;
+    for (auto const& st : W.stmts)
+      if (st.call_done && st.accepted && !st.faulty && !is_bt_kind(st.kind) && !stmt_written(W, st)) { ++unwritten; youngest = std::max<uint64_t>(youngest, st.ts); }
+    switch (c.pick(4))
+    {
+    case 0: break;
+    case 1: sim::core().vclock += 1; break;
+    case 2: sim::core().vclock += W.grace_ns / 2; break;
+    default: sim::core().vclock += W.grace_ns + 1; break;
+    }
+    r.label("ended_by_backend_exit_path");
+    if (unwritten) r.label("backend_exit_with_unwritten_statements");
+    if (unwritten && W.grace_ns > 0 && youngest + W.grace_ns > sim::core().vclock) r.label("backend_exit_with_statements_younger_than_grace");
+    W.log_op("StopBackend(" + std::to_string(unwritten) + " unwritten)");
+    W.draining = true;
+    W.in_poll = false; // no bursts inside the exit path
+    W.mbw->~ManualBackendWorker(); // == BackendWorker::_exit(); the forked case ends with _exit(0), the object is not used again
+    W.draining = false;
+    drained = true;
+  }
+  else drained = !r.failed && !r.inconclusive && drain(W);
   if (drained)
   {
-    // two more idle polls so that drop reports and reclamation had their chance
-    W.draining = true;
-    op_poll(W, false);
-    op_poll(W, false);
-    W.draining = false;
+    if (!stop_end)
+    {
+      // two more idle polls so that drop reports and reclamation had their chance
+      W.draining = true;
+      op_poll(W, false);
+      op_poll(W, false);
+      W.draining = false;
+    }
     if (is_prop("C18")) oracle_backtrace(W);
     else oracle_delivery(W);
     if (!r.failed) oracle_flushes(W);
